@@ -34,7 +34,7 @@ def wchoice(rng, weights: dict):
 def gen_eom(rng, bw_parent) -> dict:
     ctrl = pick(rng, [["BLUE"], ["RED"], ["BLUE", "RED"], ["RED", "BLUE"]])
     e = {
-        "mod_bandwidth": pick(rng, [20.0, 40.0, 24.0, 100.0]),
+        "mod_bandwidth": pick(rng, [b for b in (20.0, 40.0, 24.0, 100.0) if b >= (bw_parent or 0)]),
         "limiting_beam": pick(rng, ["RED", "BLUE"]),
         "max_limiting_amp": pick(rng, [30 * TWO_PI, 40 * TWO_PI, 10 * TWO_PI]),
         "intermediate_detuning": pick(rng, [500 * TWO_PI, 700 * TWO_PI, 300 * TWO_PI]),
@@ -433,7 +433,10 @@ class ProgGen:
     def next_op(self) -> dict:
         r = self.rng
         k = wchoice(r, self.applicable())
-        return self._style(self.make(k))
+        try:
+            return self._style(self.make(k))
+        except (ValueError, IndexError):  # candidate set emptied by a randomised filter
+            return {"op": "queries"}
 
     def make(self, k: str) -> dict:
         r = self.rng
